@@ -14,6 +14,7 @@ import Emboss.Lemmas.StaticAsserts
 import Emboss.Lemmas.EnumGen
 import Emboss.Lemmas.Names
 import Emboss.Lemmas.NamesAccept
+import Emboss.Lemmas.NamesCheck
 import Emboss.Lemmas.NamesScan
 import Emboss.Model.Names
 import Emboss.Model.EnableIfs
@@ -281,8 +282,9 @@ theorem C07_camel_collisions_rejected :
     fieldNamesDistinct [fReq "x_1", fVirt "x1", fPlain "x__1"] = true := by
   decide
 
-/-- Counterexamples to the full statement, one per clash class still open (all replayed on
-the real compiler + g++ by `./check C07`):
+/-- The scopes that *would* clash, one per former clash class (the back end rejects each of these
+modules since `_verify_generated_identifiers_are_distinct`: `C07_identifier_clashes_rejected`;
+reverting that check makes `./check C07` report them again — they are in `corpus/C07/`):
 3. field `backing_`; 4. parameter `x` and field `x_`; 5. fields `x` and `has_x`;
 6. nested enum `Ok`; 7. struct `Bar` and enum `BarView`; 8. enum `EnumTraits`;
 9. constant-size struct with nested enum `MaxSizeInBytes`;
@@ -484,6 +486,138 @@ example :
       (fun a b => Emboss.Enum.snakeToCamel a.name ≠ Emboss.Enum.snakeToCamel b.name) ∧
     fieldNamesDistinct [fPlain "a", fVirt "b_1", fConst "$size_in_bytes", fReq "c"] = true ∧
     ([fPlain "a", fVirt "b_1", fConst "$size_in_bytes", fReq "c"].map (·.name)).Nodup := by decide
+
+/-! ## accepted ⇒ the generated identifiers are distinct (`_verify_generated_identifiers_are_distinct`) -/
+
+/-- **Accepted ⇒ within every C++ scope of the generated code, two declarations of one identifier
+belong to one overload / redeclaration set** — the full statement of the naming half, now a
+consequence of acceptance: the back end walks every scope (`checkLoop`, the first-seen dictionary
+of `_verify_generated_identifiers_are_distinct`) and rejects the module otherwise.
+`Lemmas/NamesCheck.lean`: `checkLoop [] ds = clean ds`. -/
+theorem C07_identifiers_distinct (scopes : List (List Decl)) (hacc : identifiersDistinct scopes = true) :
+    ∀ sc ∈ scopes, sc.Pairwise (fun a b => a.ident = b.ident → ∃ g, a.group = some g ∧ b.group = some g) := by
+  intro sc hs
+  exact (C07_clash_scopes.1 sc).mp ((identifiersDistinct_iff scopes).mp hacc sc hs)
+
+/-- **The check rejects nothing but genuine clashes**: it fails iff some scope holds two
+incompatible declarations of one identifier. -/
+theorem C07_rejects_only_identifier_clashes (scopes : List (List Decl)) :
+    identifiersDistinct scopes = false ↔
+      ∃ sc ∈ scopes, ¬ sc.Pairwise (fun a b => a.ident = b.ident → ∃ g, a.group = some g ∧ b.group = some g) := by
+  constructor
+  · intro h
+    apply Classical.byContradiction
+    intro hn
+    have : identifiersDistinct scopes = true := by
+      rw [identifiersDistinct_iff]
+      intro sc hs
+      rw [C07_clash_scopes.1 sc]
+      apply Classical.byContradiction
+      intro hc
+      exact hn ⟨sc, hs, hc⟩
+    rw [h] at this
+    cases this
+  · rintro ⟨sc, hs, hc⟩
+    cases hd : identifiersDistinct scopes with
+    | false => rfl
+    | true => exact absurd (C07_identifiers_distinct scopes hd sc hs) hc
+
+/-- **The former clash classes cannot occur in an accepted structure** (findings
+`field-named-like-view-data-member`, `field-named-like-parameter-member`,
+`field-named-has_-of-another-field`, `nested-enum-named-like-view-member`,
+`parameter-named-like-view-data-member`, `structure-named-Storage-or-ValueType`,
+`nested-enum-named-like-its-structure`; all fixed by rejection). -/
+theorem C07_accepted_excludes_clash_classes (st : Struct) (hacc : identifiersDistinct (structScopes st) = true) :
+    (∀ f ∈ st.fields, isDollar f.name = false → f.name ∉ fixedMembers st) ∧
+    (∀ p ∈ st.params, ∀ f ∈ st.fields, isDollar f.name = false → f.name ≠ p ++ s "_") ∧
+    (∀ f ∈ st.fields, ∀ g ∈ st.fields, isDollar f.name = false → isDollar g.name = false →
+      g.name ≠ s "has_" ++ f.name) ∧
+    (∀ e ∈ st.nestedEnums, e ∉ fixedMembers st) ∧
+    (∀ p ∈ st.params, p ++ s "_" ∉ fixedMembers st) ∧
+    st.name ≠ s "Storage" ∧ st.name ≠ s "ValueType" ∧ st.name ∉ st.nestedEnums := by
+  have hall := (identifiersDistinct_iff _).mp hacc
+  have hc : clean (classScope st) = true := hall _ (by simp [structScopes])
+  have ht : clean (typeRefScope st) = true := hall _ (by simp [structScopes])
+  have hn : clean (nestedRefScope st) = true := hall _ (by simp [structScopes])
+  refine ⟨?_, ?_, ?_, ?_, ?_, ?_, ?_, ?_⟩
+  · intro f hf hd hm
+    have := C07_clash_scopes.2.1 st f hf hd hm
+    rw [hc] at this; cases this
+  · intro p hp f hf hd hm
+    have := C07_clash_scopes.2.2.1 st p f hp hf hd hm
+    rw [hc] at this; cases this
+  · intro f hf g hg hdf hdg hm
+    have := C07_clash_scopes.2.2.2.1 st f g hf hg hdf hdg hm
+    rw [hc] at this; cases this
+  · intro e he hm
+    have := C07_clash_scopes.2.2.2.2 st e he hm
+    rw [hc] at this; cases this
+  · intro p hp hm
+    have := C07_clash_scopes_references.1 st p hp hm
+    rw [hc] at this; cases this
+  · intro h
+    have := C07_clash_scopes_references.2.1 st h
+    rw [ht] at this; cases this
+  · intro h
+    have := C07_clash_scopes_references.2.2.1 st h
+    rw [hn] at this; cases this
+  · intro h
+    have := C07_clash_scopes_references.2.2.2.1 st h
+    rw [ht] at this; cases this
+
+/-- **… nor in an accepted namespace scope** (findings `type-named-like-generated-type-identifier`,
+`type-named-like-enum-helper`, `nested-type-named-like-size-constant`,
+`type-declared-twice-in-one-cpp-namespace`). -/
+theorem C07_accepted_excludes_namespace_clash_classes (sc : Scope)
+    (hacc : identifiersDistinct [namespaceScope sc] = true) :
+    (∀ n ∈ sc.structs, ∀ e ∈ sc.enums,
+      e ≠ n ++ s "View" ∧ e ≠ n ++ s "Writer" ∧ e ≠ s "Generic" ++ n ++ s "View" ∧
+      e ≠ s "Make" ++ n ++ s "View" ∧ e ≠ s "MakeAligned" ++ n ++ s "View" ∧ e ≠ n) ∧
+    (sc.traits = true → ∀ e ∈ sc.enums,
+      e ≠ s "EnumTraits" ∧ e ≠ s "TryToGetEnumFromName" ∧ e ≠ s "TryToGetNameFromEnum" ∧ e ≠ s "EnumIsKnown") ∧
+    (∀ st f c, sc.owner = some st → f ∈ st.fields → f.constant = true → cppFieldName f.name = some c →
+      c ∉ sc.enums) := by
+  have hc : clean (namespaceScope sc) = true := (identifiersDistinct_iff _).mp hacc _ (by simp)
+  refine ⟨?_, ?_, ?_⟩
+  · intro n hn e he
+    refine ⟨?_, ?_, ?_, ?_, ?_, ?_⟩
+    · intro h; have := C07_clash_scopes_namespace.1 sc n e hn he (Or.inl h); rw [hc] at this; cases this
+    · intro h; have := C07_clash_scopes_namespace.1 sc n e hn he (Or.inr (Or.inl h)); rw [hc] at this; cases this
+    · intro h; have := C07_clash_scopes_namespace.1 sc n e hn he (Or.inr (Or.inr (Or.inl h))); rw [hc] at this; cases this
+    · intro h; have := C07_clash_scopes_namespace.1 sc n e hn he (Or.inr (Or.inr (Or.inr (Or.inl h)))); rw [hc] at this; cases this
+    · intro h; have := C07_clash_scopes_namespace.1 sc n e hn he (Or.inr (Or.inr (Or.inr (Or.inr h)))); rw [hc] at this; cases this
+    · intro h
+      subst h
+      have := C07_clash_scopes_references.2.2.2.2 sc e hn he
+      rw [hc] at this; cases this
+  · intro ht e he
+    refine ⟨?_, ?_, ?_, ?_⟩
+    · intro h; have := C07_clash_scopes_namespace.2.1 sc e ht he (Or.inl h); rw [hc] at this; cases this
+    · intro h; have := C07_clash_scopes_namespace.2.1 sc e ht he (Or.inr (Or.inl h)); rw [hc] at this; cases this
+    · intro h; have := C07_clash_scopes_namespace.2.1 sc e ht he (Or.inr (Or.inr (Or.inl h))); rw [hc] at this; cases this
+    · intro h; have := C07_clash_scopes_namespace.2.1 sc e ht he (Or.inr (Or.inr (Or.inr h))); rw [hc] at this; cases this
+  · intro st f c ho hf hk hcpp he
+    have := C07_clash_scopes_namespace.2.2 sc st f c c ho hf hk hcpp he rfl
+    rw [hc] at this; cases this
+
+/-- The former witnesses are rejected now; an ordinary structure and scope are accepted
+(non-vacuity of the three theorems above).  Pinned in `corpus/C07/clash_*_must_be_rejected.*`. -/
+theorem C07_identifier_clashes_rejected :
+    identifiersDistinct (structScopes { name := s "Foo", fields := [fPlain "backing_"] }) = false ∧
+    identifiersDistinct (structScopes { name := s "Foo", params := [s "x"], fields := [fPlain "x_"] }) = false ∧
+    identifiersDistinct (structScopes { name := s "Foo", params := [s "backing"], fields := [fPlain "y"] }) = false ∧
+    identifiersDistinct (structScopes { name := s "Foo", fields := [fPlain "x", fPlain "has_x"] }) = false ∧
+    identifiersDistinct (structScopes { name := s "Foo", fields := [fPlain "y"], nestedEnums := [s "Ok"] }) = false ∧
+    identifiersDistinct (structScopes { name := s "Storage", fields := [fPlain "y"] }) = false ∧
+    identifiersDistinct (structScopes { name := s "ValueType", fields := [fPlain "y"] }) = false ∧
+    identifiersDistinct (structScopes { name := s "Foo", fields := [fPlain "y"], nestedEnums := [s "Foo"] }) = false ∧
+    identifiersDistinct [namespaceScope { structs := [s "Bar"], enums := [s "BarView"] }] = false ∧
+    identifiersDistinct [namespaceScope { enums := [s "EnumTraits"] }] = false ∧
+    identifiersDistinct [namespaceScope { enums := [s "EnumTraits"], traits := false }] = true ∧
+    identifiersDistinct [namespaceScope { structs := [s "Foo", s "Foo"] }] = false ∧
+    identifiersDistinct (structScopes { name := s "Foo", params := [s "n"], fields := [fPlain "a", fVirt "b_1", fConst "$size_in_bytes"], nestedEnums := [s "Kind", s "ValueType"] }) = true ∧
+    identifiersDistinct [namespaceScope { structs := [s "Foo", s "Bar"], enums := [s "Kind", s "Other"] }] = true := by
+  decide
 
 /-! ## `(cpp) namespace` -/
 
